@@ -68,8 +68,17 @@ pub fn run(args: &Args) {
                 dags.push(d.clone())
             }
         });
-        let ex = run_all(&mut rep, name, &dags, oracles, true, |c, m| (c.ends_with("-outcome") && m.contains("ParallelFinalize")) || c == "failed-op-changed-state", |d, f| singleton_histories(d, &cuts, act, f));
+        let filter: crate::props::simrun::Filter = |c, m| (c.ends_with("-outcome") && m.contains("ParallelFinalize")) || c == "failed-op-changed-state";
+        let ex = run_all(&mut rep, name, &dags, oracles, true, filter, |d, f| singleton_histories(d, &cuts, act, f));
         families.push(json!({"family": name, "universes": dags.len(), "executions": ex}));
+        // Same histories, but the transaction whose merge was refused keeps being used: a later commit
+        // of that transaction still has both finalize branches among its tips and must be refused too,
+        // leaving the committed state unchanged (only outcomes involving ParallelFinalize and the
+        // state after failed operations are judged).
+        let small: Vec<Dag> = dags.iter().filter(|d| d.len() <= 4).cloned().collect();
+        let ex2 = run_all(&mut rep, name, &small, oracles, false, filter, |d, f| singleton_histories(d, &cuts, false, f));
+        rep.count("kept_transaction_executions", ex2);
+        families.push(json!({"family": format!("{name} [transaction kept after a refused merge, n<=4]"), "universes": small.len(), "executions": ex2}));
     }
     families.extend(crate::props::spill::run_finalize_families(&mut rep, args.tier == Tier::Thorough));
     rep.require_nonzero("comb_runs_that_spilled");
